@@ -2,6 +2,8 @@
 
 package process
 
+import "time"
+
 // Verification hooks (build tag verif). A harness installs a sink; with no sink
 // installed every hook is a no-op. None of this is compiled without the tag.
 
@@ -36,6 +38,17 @@ type VerifTcSinkT interface {
 }
 
 var VerifTcSink VerifTcSinkT
+
+// VerifBeatSink observes the heartbeat receiver from inside its own goroutine: it is called
+// when a heartbeat has been received (expired = false) and when the inactivity timer has
+// fired (expired = true); timeout is the inactivity interval in force.
+var VerifBeatSink func(re *RuntimeEnvironment, expired bool, timeout time.Duration)
+
+func vhBeat(re *RuntimeEnvironment, expired bool, timeout time.Duration) {
+	if VerifBeatSink != nil {
+		VerifBeatSink(re, expired, timeout)
+	}
+}
 
 func vhSpawn(re *RuntimeEnvironment, p *Process) {
 	if VerifSink != nil {
